@@ -4,6 +4,7 @@ import z3
 from pyvc import sym
 from pyvc.arr import SymArray, check_same
 from pyvc.harness import Unit
+from pyvc import harness as _h
 from pyvc.sym import SB, SC, SI, SR, check, assume
 from checks import kernels_common as kc, update_common as uc
 
@@ -141,13 +142,19 @@ def _upd(screening, dynamic):
     return lambda m=None: uc.run_update(m, screening, dynamic, prefixes=("C13.",))
 
 
+
+def _bounded_quick():
+    return native(0)
+
+
 def units():
     U = "tdgl.solver.solver:TDGLSolver.update"
     return [Unit("get_A_induced_numba", M + ":get_A_induced_numba", run_kernel, props=["C13", "C09"], timeout=600),
             Unit("get_induced_vector_potential", "tdgl.solver.solver:TDGLSolver.get_induced_vector_potential", run_polyak, props=["C13"], timeout=600),
             Unit("update[screening, static A]", U, _upd(True, False), props=["C13"], timeout=900),
             Unit("update[screening, dynamic A]", U, _upd(True, True), props=["C13"], timeout=900),
-            Unit("update[no screening, static A]", U, _upd(False, False), props=["C13"], timeout=900)]
+            Unit("update[no screening, static A]", U, _upd(False, False), props=["C13"], timeout=900),
+            _h.bounded_unit("screening kernel, Polyak step and convergence on real runs [bounded]", "tdgl.solver.screening / TDGLSolver.get_induced_vector_potential (real)", "C13", _bounded_quick, "kernel_polyak_iteration_and_convergence_rule_on_the_real_solver", timeout=900)]
 
 
 def native(seed=0):
